@@ -36,7 +36,7 @@ def family_of(label):
 def inspect(data):
     try:
         with drv.Env('inspect', len(data), data[4:8], data[-2:]), drv.Watchdog(5.0):
-            info = mciipm.ipm_info(io.BytesIO(data))
+            info = mciipm.ipm_info(drv.new_file(data))
     except BaseException as ex:  # noqa
         return {'valid': False, 'reason': False, 'blocked': 'absent', 'family': 'absent'}, drv.exc_outcome(ex)
     obs = {'valid': info.get('isValidIPM') is True, 'reason': bool(info.get('reason')),
@@ -49,6 +49,33 @@ def trace(tid, data, writer, blk, fam, desc):
     obs, raw = inspect(data)
     return {'tid': tid, 'head': list(data[:1100]), 'flen': len(data),
             'facts': {'writer': writer, 'blk': blk, 'family': fam}, 'obs': obs, '_desc': desc, '_raw': repr(raw)[:300]}
+
+
+def _drive_threads(args):
+    """one harness thread: inspects its own files over and over (writer files of three blocks in both families,
+    inputs whose first bitmap uses an unconfigured element)"""
+    import struct
+    seed, k = args
+    from .isoc import PKG
+    bc = PKG['bit_config']
+    enc = ('latin_1', 'cp500')[k % 2]
+    msgs = [{'MTI': '1240', 'DE3': '123456', 'DE72': 'thread %d ' % k * 90}] * 3
+    good_b = ipmc.write_file(msgs, enc, bc, True)
+    good_u = ipmc.write_file(msgs[:1], enc, bc, False)
+    bm = bytearray(16)
+    bm[0] |= 0x82                     # bit 1 and bit 7 (no configuration)
+    bad = struct.pack('>I', 40) + b'1240' + bytes(bm) + b'0' * 60
+    out = []
+    fam = 'ascii' if enc == 'latin_1' else 'ebcdic'
+    for i in range(120):
+        which = (i + k) % 3
+        if which == 0:
+            out.append(trace(0, good_b, True, True, fam, '%s blocked writer file of %d bytes' % (enc, len(good_b))))
+        elif which == 1:
+            out.append(trace(0, bad, False, False, 'ascii', 'first bitmap uses unconfigured bit 7'))
+        else:
+            out.append(trace(0, good_u, True, False, fam, '%s vbs writer file of %d bytes' % (enc, len(good_u))))
+    return out
 
 
 def message_of_size(r, n, enc):
@@ -210,6 +237,12 @@ def run(rep, wd, tier, seed):
     cfgp = write_cfg(os.path.join(wd, 'Trace_Inspect.cfg'),
                      'CONSTANTS P = 1012 T = 2 PAD = 64 MaxLen = %d\nSPECIFICATION TSpec\nPOSTCONDITION AllAccepted\n'
                      'CHECK_DEADLOCK FALSE\n' % maxlen)
+    # four threads at once, each inspecting its own files
+    from . import isocheck
+    for o in isocheck.mark_threaded(isocheck.threaded('harness.c17', '_drive_threads', [(seed, k) for k in range(8)], procs=2)):
+        for t in o:
+            t['tid'] = len(traces)
+            traces.append(t)
     batches = [{'consts': None, 'traces': p} for p in core.split(traces, 6)] + [{'consts': consts2, 'traces': traces2}] + extra_batches
     cfgs = {}
     for b in extra_batches:
